@@ -158,7 +158,8 @@ class ModuleInfo(object):
         self.path = path
         self.text = text
         try:
-            self.tree = ast.parse(text, filename=path)
+            from .normalise import normalise
+            self.tree = normalise(ast.parse(text, filename=path))
         except SyntaxError as exc:
             raise AnalysisError("syntax error in %s: %s" % (path, exc))
         self.is_package = path.endswith("__init__.py")
